@@ -63,7 +63,7 @@ REJECT_LABELS = {"syntax", "type", "name", "index", "unresolvable", "malformed",
 
 
 def plan(tier, seed):
-    return [{"cmd": c, "part": i, "parts": 5} for c in ("path", "pointer", "patch") for i in range(5)]
+    return [{"cmd": c, "part": i, "parts": 5} for c in ("path", "pointer", "patch") for i in range(5)] + [{"cmd": c, "part": -1, "parts": 5, "encodings": True} for c in ("path", "pointer", "patch")]
 
 
 class Files:
@@ -72,11 +72,11 @@ class Files:
         os.makedirs(root, exist_ok=True)
         self.n = 0
 
-    def write(self, text, binary=False):
+    def write(self, text, encoding="utf-8"):
         self.n += 1
         p = os.path.join(self.root, "f%d" % self.n)
-        with open(p, "w", encoding="utf-8") as f:
-            f.write(text)
+        with open(p, "wb") as f:
+            f.write(text.encode(encoding))
         return p
 
     def out(self):
@@ -108,9 +108,12 @@ def run_cli_inprocess(argv, stdin_text):
     return status, out, err, exc
 
 
-def run_cli_subprocess(argv, stdin_text, repo):
+def run_cli_subprocess(argv, stdin_text, repo, c_locale=False):
     env = dict(os.environ)
     env["PYTHONPATH"] = repo
+    if c_locale:
+        env.update({"LC_ALL": "C", "LANG": "C", "PYTHONUTF8": "0", "PYTHONCOERCECLOCALE": "0"})
+        env.pop("PYTHONIOENCODING", None)
     p = subprocess.run([sys.executable, "-B", "-m", "jsonpath"] + argv, input=(stdin_text or "").encode("utf-8"), capture_output=True, timeout=60, env=env, cwd=repo)
     err = p.stderr.decode("utf-8", "replace")
     return p.returncode, p.stdout.decode("utf-8", "replace"), err, ("Traceback" if "Traceback (most recent call last)" in err else None)
@@ -119,16 +122,22 @@ def run_cli_subprocess(argv, stdin_text, repo):
 def library_outcome(cmd, expr, doc_text, opts):
     import jsonpath
 
+    if opts.get("doc_encoding") and not opts["doc_stdin"]:
+        # a document file in another Unicode encoding: the library is handed the file's bytes
+        data = doc_text.encode(opts["doc_encoding"])
+        mk = lambda _t: io.BytesIO(data)  # noqa: E731
+    else:
+        mk = io.StringIO
     try:
         if cmd == "path":
             env = jsonpath.JSONPathEnvironment(unicode_escape=not opts["no_unicode_escape"], well_typed=not opts["no_type_checks"])
-            return ("ok", env.compile(expr).findall(io.StringIO(doc_text)))
+            return ("ok", env.compile(expr).findall(mk(doc_text)))
         if cmd == "pointer":
-            return ("ok", jsonpath.pointer.resolve(expr, io.StringIO(doc_text), unicode_escape=not opts["no_unicode_escape"], uri_decode=opts["uri_decode"]))
+            return ("ok", jsonpath.pointer.resolve(expr, mk(doc_text), unicode_escape=not opts["no_unicode_escape"], uri_decode=opts["uri_decode"]))
         patch = json.loads(expr)
         if not isinstance(patch, list):
             return ("reject", "not-a-list")
-        return ("ok", jsonpath.patch.apply(patch, io.StringIO(doc_text), unicode_escape=not opts["no_unicode_escape"], uri_decode=opts["uri_decode"]))
+        return ("ok", jsonpath.patch.apply(patch, mk(doc_text), unicode_escape=not opts["no_unicode_escape"], uri_decode=opts["uri_decode"]))
     except (jsonpath.JSONPathError, jsonpath.JSONPointerError, jsonpath.JSONPatchError, json.JSONDecodeError) as e:
         return ("reject", type(e).__name__)
     except Exception as e:  # noqa: BLE001
@@ -152,7 +161,7 @@ def check(ctx, files, cmd, label, expr, doc_ok, opts, use_subprocess, repo, doc_
     argv.append(cmd)
     if cmd == "patch":
         expr_text = expr if isinstance(expr, str) else json.dumps(expr)
-        argv.append(files.write(expr_text))
+        argv.append(files.write(expr_text, opts.get("patch_encoding", "utf-8")))
     else:
         expr_text = expr
         if opts["expr_file"]:
@@ -163,7 +172,7 @@ def check(ctx, files, cmd, label, expr, doc_ok, opts, use_subprocess, repo, doc_
     if opts["doc_stdin"]:
         stdin_text = doc_text
     else:
-        argv += ["-f", files.write(doc_text)]
+        argv += ["-f", files.write(doc_text, opts.get("doc_encoding") or "utf-8")]
     outfile = None
     if opts["out_file"]:
         outfile = files.out()
@@ -185,7 +194,7 @@ def check(ctx, files, cmd, label, expr, doc_ok, opts, use_subprocess, repo, doc_
             return
         want = ("reject", "foreign:" + want[1])
     if use_subprocess:
-        status, out, err, exc = run_cli_subprocess(argv, stdin_text, repo)
+        status, out, err, exc = run_cli_subprocess(argv, stdin_text, repo, c_locale=bool(opts.get("c_locale")))
         ctx.count("subprocess_invocations")
     else:
         status, out, err, exc = run_cli_inprocess(argv, stdin_text)
@@ -272,6 +281,25 @@ def run(spec, ctx):
     sub_share = 0.05 if ctx.tier == "quick" else 0.25
     n = 0
     try:
+        if spec.get("encodings"):
+            # document (and patch) files in every Unicode encoding a JSON file may arrive in, raw non-ASCII content, also under the C locale
+            small = {"path": ["$.a[*]", "$..b", "$.s"], "pointer": ["/a/2/b", "/s", "/a/2"], "patch": [[{"op": "add", "path": "/new", "value": [1, {"k": "v"}]}], [], [{"op": "copy", "from": "/s", "path": "/t"}]]}[cmd]
+            for expr in small:
+                for dt in (DOC_TEXT, json.dumps(DOC, ensure_ascii=False), BAD_DOC_TEXT):
+                    for enc in ("utf-8", "utf-8-sig", "utf-16", "utf-16-le", "utf-16-be", "utf-32", "utf-32-le", "utf-32-be"):
+                        for mode in ("inprocess", "subprocess", "subprocess-c-locale"):
+                            for pretty, out_file in ((False, False), (True, True)):
+                                opts = {"debug": False, "pretty": pretty, "no_unicode_escape": False, "expr_file": False, "doc_stdin": False, "out_file": out_file, "no_type_checks": False, "uri_decode": False,
+                                        "doc_encoding": enc, "c_locale": mode.endswith("c-locale")}
+                                if cmd == "patch" and pretty:
+                                    opts["patch_encoding"] = enc
+                                check(ctx, files, cmd, "valid", expr, dt != BAD_DOC_TEXT, opts, mode != "inprocess", REPO, doc_text=dt)
+                                ctx.cell("document_file_encodings", "%s %s %s" % (cmd, enc, mode))
+                                n += 1
+                    shutil.rmtree(tmp, ignore_errors=True)
+                    files = Files(tmp)
+            ctx.count("invocations", n)
+            return
         for i, (label, expr) in enumerate(exprs):
             if i % spec["parts"] != spec["part"]:
                 continue
